@@ -435,7 +435,9 @@ namespace pika {
           : callback_(std::forward<CB>(cb))
           , state_(st.state_)
         {
-            if (state_) state_->add_callback(this);
+            // keep the stop state only if the callback was registered; otherwise the destructor
+            // must not wait for an invocation that will never come
+            if (state_ && !state_->add_callback(this)) state_.reset();
         }
 
         template <typename CB,
@@ -446,7 +448,7 @@ namespace pika {
           : callback_(std::forward<CB>(cb))
           , state_(std::move(st.state_))
         {
-            if (state_) state_->add_callback(this);
+            if (state_ && !state_->add_callback(this)) state_.reset();
         }
 
         // Effects: Unregisters the callback from the owned stop state, if any.
